@@ -203,8 +203,27 @@ def _in_grammar(cps):
     return True
 
 
+def _numbers(cps):
+    """(first, second or None) of a command in the grammar."""
+    digs, out = "", []
+    for o in cps[:-1]:
+        if o == 44:
+            out.append(int(digs))
+            digs = ""
+        else:
+            digs += chr(o)
+    out.append(int(digs))
+    return out[0], (out[1] if len(out) > 1 else None)
+
+
 def _cmdline(kind, line, cps):
     ok = _in_grammar(cps)
+    if ok:
+        # syntactically well-formed but semantically invalid addresses (reversed range, line 0 for
+        # c/d) are malformed for ed as well: an implementation may accept or reject them
+        first, second = _numbers(cps)
+        if (second is not None and second < first) or (first == 0 and cps[len(cps) - 1] != 97):
+            raise Skip("semantically invalid address: outcome not fixed by the statement")
     script = [line + _nl(kind)]
     if not (ok and cps[len(cps) - 1] == 100):
         script += [_enc(kind, "x") + _nl(kind), _enc(kind, ".") + _nl(kind)]
